@@ -228,7 +228,7 @@ def build_recording(tier):
             ("Pipeline_c07sim.cfg", 1500 if thorough else 40, None, V0), ("Pipeline_c11rules.cfg", None, 10 ** 6, V0), ("Pipeline_c11rulesp.cfg", None, 10 ** 6, V0), ("Pipeline_c10core.cfg", None, 10 ** 6, A0), ("Pipeline_c10.cfg", None, 1000 if thorough else 40, A0), ("Pipeline_c10mask.cfg", None, 700 if thorough else 40, A0),
             ("Pipeline_c10maskcore.cfg", None, 10 ** 6, A0), ("Pipeline_c10enf.cfg", None, 10 ** 6, A0),
             ("Pipeline_c13sim.cfg", 400 if thorough else 24, None, V0 + A0),
-            ("Pipeline_c14sim.cfg", 2000 if thorough else 40, None, V0), ("Pipeline_c14types.cfg", None, 10 ** 6, V0)]
+            ("Pipeline_c14sim.cfg", 2000 if thorough else 40, None, V0), ("Pipeline_c14types.cfg", None, 10 ** 6, V0), ("Pipeline_c14generics.cfg", None, 10 ** 6, V0)]
     if thorough:
         plan.append(("Pipeline_c10sim.cfg", 1500, None, A0))
     import concurrent.futures
@@ -326,7 +326,7 @@ def build_recording(tier):
 
 
 # input sets whose projects the session machine does not claim to predict (verbatim hostile declarations, malformed properties)
-HOSTILE_SETS = {"Pipeline_c14sim.cfg", "Pipeline_c14types.cfg"}
+HOSTILE_SETS = {"Pipeline_c14sim.cfg", "Pipeline_c14types.cfg", "Pipeline_c14generics.cfg"}
 # which property a run belongs to when the session machine cannot explain it at this event
 CONFORM_PROP = {"Validated": "C10", "RunFailedOnDiagnostics": "C10", "Reduced": "C10", "RoutesWritten": "C10", "ConfigAccepted": "C20", "ConfigRejected": "C20",
                 "PackagesLoad": "C20", "Spec30Built": "C08", "Spec30Validated": "C08", "Spec31Built": "C08", "Spec31Validated": "C08", "SpecWritten": "C08", "Exit": "C14"}
